@@ -8,6 +8,10 @@ import numpy as np
 class Complete:
   nodes: int = 0
   radius: float = 1.0
+  _scratch: dict = dataclasses.field(default_factory=dict, init=False, compare=False, repr=False)
+
+  def lookup(self, k):
+    return self._scratch.get(k)
 
   def area(self):
     return 4 * np.pi * self.radius**2
